@@ -29,7 +29,7 @@ run_demo() {
     timeout 600 cargo run --offline --example demo_lv >/tmp/demo-$ID-$M.log 2>&1; rc=$?
     rm -f examples/demo_lv.rs
   elif [ -f "$OUT/demo.sh" ]; then
-    (cd "$WT" && timeout 900 bash "$OUT/demo.sh" >/tmp/demo-$ID-$M.log 2>&1); rc=$?
+    (cd "$WT" && cargo build --offline >/dev/null 2>&1 && timeout 900 bash "$OUT/demo.sh" >/tmp/demo-$ID-$M.log 2>&1); rc=$?
   else
     echo "no demo"; rc=99
   fi
